@@ -24,6 +24,7 @@ RULE = ('Random expression trees (depth <= 4, unary signs, parentheses, random s
         'and parse(print(r)).value agree; (3) plain and reflected operators leave the snapshots of both operands and of every document containing one '
         'unchanged; (4) an in-place operator on an attached expression changes the document only inside that expression\'s span. Non-trivial = the '
         'right operand\'s top-level operator binds weaker than the applied one, or an operand is attached in a document, or the chain has length >= 2.')
+RULE = RULE + ' Round 8: literals with more than 28 significant digits.'
 ASSUMPTIONS = ['// is not in the property', 'whether an in-place operator consumes a free right operand is not asserted', 'cases whose evaluation divides by zero are discarded']
 SHRINK_LISTS = ('chain', 'dirs')
 REQUIRED_CLASSES = ('base:written-int', 'operand:fromint', 'reflected-with-expression', 'inplace-statement', 'operand:self', 'form:plain', 'form:reflected', 'form:inplace', 'form:unary', 'operand:int', 'operand:dec', 'operand:expr', 'operand:attached', 'base:attached',
